@@ -787,7 +787,8 @@ def run_api(ctx, r, spec, label, per_method=1, informational=None, multi_client=
                         fail("payload" if not dropped else "call-count", f"{fl} {me['name']}({p['mode']}): server decoded {sent}, caller's request is {p['requests']}", me, asy, "call-count" if dropped else "payload", extra)
                     # the caller's metadata travels with the call (the wrapped method is invoked with `metadata=metadata`)
                     ctx.traces += 1
-                    if ["x-verif-call", p.get("tag")] not in [list(x) for x in rec["metadata"]]:
+                    dropped_kind = asy and me["output"]["full"] == "google.protobuf.Empty" and (me["cs"] or me["ss"])   # open finding: records may be strays of an earlier released call
+                    if not dropped_kind and ["x-verif-call", p.get("tag")] not in [list(x) for x in rec["metadata"]]:
                         ctx.disagree("T3:c03.metadata-passthrough", f"{fl} {me['name']}({p['mode']}): caller metadata x-verif-call={p.get('tag')} not among {[x for x in rec['metadata'] if x[0].startswith('x-')]}", dict(payload, **extra))
                 want_ret = expected_ret(me, p["replies"])
                 ok_ret = (ret == want_ret)
